@@ -90,6 +90,8 @@ package protocol
 //@   requires h != nil && excl(h.mtx) && hshape(h)
 //@   modifies shared
 //@   ensures hshape(h)
+//@   loop 1: invariant each(h.currentRound.PartyIDs()[:rangeindex+1], id, h.broadcast[h.currentRound.Number()][id] != nil)
+//@   loop 2: invariant each(h.currentRound.PartyIDs(), id, h.broadcast[h.currentRound.Number()][id] != nil)
 
 //@ func (*MultiHandler).checkBroadcastHash
 //@   chansafe[C17]
